@@ -13,9 +13,9 @@ import absval
 import gengrid
 import zinccodec
 
-FIELDS = ['num', 'esc', 'frac', 'dt', 'coord', 'sep', 'nl', 'mark', 'list', 'empty', 'gap', 'fin']
-RANGES = {'num': 5, 'esc': 3, 'frac': 3, 'dt': 5, 'coord': 3, 'sep': 3, 'nl': 2, 'mark': 2, 'list': 4,
-          'empty': 2, 'gap': 3, 'fin': 2}
+FIELDS = ['num', 'esc', 'frac', 'dt', 'coord', 'sep', 'nl', 'mark', 'list', 'empty', 'gap', 'fin', 'ng']
+RANGES = {'num': 5, 'esc': 3, 'frac': 4, 'dt': 5, 'coord': 3, 'sep': 3, 'nl': 2, 'mark': 2, 'list': 4,
+          'empty': 2, 'gap': 3, 'fin': 2, 'ng': 2}
 
 
 def abstract_docs(hs, A, plans, tier, rng):
